@@ -969,17 +969,21 @@ func (p *BinaryProtocol) EncodeText(desc *TypeDescriptor, buf *[]byte, byteAsUin
 			if typ == STOP {
 				break
 			}
+			field := st.FieldById(id)
+			if field == nil {
+				if disallowUnknown {
+					return errUnknonwField
+				}
+				// skip the value of the unknown field
+				if err := p.Skip(typ, false); err != nil {
+					return err
+				}
+				continue
+			}
 			if !hasVal {
 				hasVal = true
 			} else {
 				*buf = append(*buf, ',')
-			}
-			field := st.FieldById(id)
-			if field == nil {
-				if !disallowUnknown {
-					return errUnknonwField
-				}
-				continue
 			}
 			if !useFieldName {
 				*buf = json.EncodeInt64(*buf, int64(id))
